@@ -644,3 +644,32 @@ class Firm:
     @classmethod
     def _yatiml_savorize(cls, node: yatiml.Node) -> None:
         node.map_attribute_to_index('employees', 'name', 'role')
+
+
+# ------------------------------------- ambiguous subclasses (C17 weak claim)
+class AmbB:
+    def __init__(self, a: int) -> None:
+        T(self, locals())
+        self.a = a
+
+
+class AmbS1(AmbB):
+    def __init__(self, a: int, x: int = 0) -> None:
+        T(self, locals())
+        super().__init__(a)
+        self.x = x
+
+
+class AmbS2(AmbB):
+    def __init__(self, a: int, y: int = 0) -> None:
+        T(self, locals())
+        super().__init__(a)
+        self.y = y
+
+
+class AmbHolder:
+    """Without `x` or `y` the value of b matches both subclasses."""
+    def __init__(self, b: AmbB, n: int = 0,
+                 bs: Optional[List[AmbB]] = None) -> None:
+        T(self, locals())
+        self.b, self.n, self.bs = b, n, bs
